@@ -49,8 +49,12 @@ fn exec<D: Doc>(p: &PrepDoc<D>, residue: usize) -> Result<(u64, &'static str, us
                     let (off, _, unit) = misaligned[0];
                     return Err(Violation::new("C12/misaligned-accepted", format!("{}: succeeded although the block at offset {} (unit {}) is misaligned", what, off, unit)));
                 }
-                if c != p.canon {
-                    return Err(Violation::new("C12/value-differs", format!("{}: the value differs from the reference", what)));
+                // "never misread": the value must not depend on the placement (reference = the same read at a
+                // page-aligned address, when that read succeeds)
+                if let Some(reference) = &p.canon_eps {
+                    if c != *reference {
+                        return Err(Violation::new("C12/value-differs", format!("{}: the value differs from the one read at a page-aligned address", what)));
+                    }
                 }
                 for pt in &parts {
                     if pt.align > 1 && pt.addr % pt.align != 0 {
@@ -90,12 +94,12 @@ impl DocFn for RunUnit<'_> {
     fn call<D: Doc>(self) {
         let RunUnit { ctx, unit, vi } = self;
         ctx.begin(unit, u64::MAX);
-        let Some(p) = prep_doc::<D>(ctx.seed, ID, vi, ctx.tier) else {
+        let Some(p) = prep_doc_need::<D>(ctx.seed, ID, vi, ctx.tier, Need::Stream) else {
             ctx.count("control_failures");
             return;
         };
         ctx.docs_seen.insert(D::NAME.to_string());
-        let canon_digest = Fnv::new().bytes(&p.canon).get();
+        let canon_digest = Fnv::new().bytes(&p.b).get();
         let blocks = blocks_of(&p.schema);
         let maxu = blocks.iter().map(|b| b.2).max().unwrap_or(1);
         let has_empty_block = blocks.iter().any(|b| b.1 == 0 && b.2 > 1);
@@ -157,7 +161,7 @@ struct Replay<'a> {
 impl DocFn for Replay<'_> {
     type Out = Result<Option<Violation>, String>;
     fn call<D: Doc>(self) -> Self::Out {
-        let Some(p) = prep_doc::<D>(self.seed, ID, self.case.vi, self.tier) else { return Err("the fault-free control run of this value fails".into()) };
+        let Some(p) = prep_doc_need::<D>(self.seed, ID, self.case.vi, self.tier, Need::Stream) else { return Err("the fault-free control run of this value fails".into()) };
         Ok(exec(&p, self.case.residue % 4096).err())
     }
 }
